@@ -49,3 +49,140 @@ Proof.
   reflexivity.
 Qed.
 
+
+(* ------------------------------------------------------------------ C11: Get / Set / Swap, the whole bodies *)
+(* Gen/Funcs.v has the three methods translated from level/bitstorage.go: receiver fields are parameters,
+   b.data is a function Z -> Z, the write to b.data[c] is returned as a log, panic(...) is GoPanic.  They are
+   proved equal to the model's bs_get / bs_set / bs_swap on every storage whose fields are in the stated
+   ranges (which wf implies), relative to the model's own `locate` (index, shift count, long). *)
+Ltac z_lits := repeat match goal with |- context [Zpos ?p] => change (Zpos p) with (Z.of_N (Npos p)) end.
+Ltac z_to_n := repeat (progress rewrite ?zn_land, ?zn_lor, ?zn_lxor, ?zn_shiftl, ?zn_shiftr, ?zn_wrap_u, ?zn_eqb).
+
+Definition dataf (st : C11.bstore) : Z -> Z := fun c => Z.of_N (nth (Z.to_nat c) (C11.data st) 0%N).
+
+Definition fields_ok (st : C11.bstore) : Prop :=
+  0 <= C11.blen st < 2 ^ 31 /\ 0 < C11.vpl st <= 64 /\ 0 <= C11.bits st <= 64 /\ (C11.mask st < 2 ^ 64)%N.
+
+Lemma locate_inv st i c off l : C11.locate st i = Some (c, off, l) ->
+  exists c0 off0, C11.calc_index st i = (c0, off0) /\ 0 <= c0 /\ 0 <= off0 /\
+                  c = Z.to_nat c0 /\ off = Z.to_N off0 /\ nth (Z.to_nat c0) (C11.data st) 0%N = l.
+Proof.
+  unfold C11.locate. destruct (C11.calc_index st i) as [c0 off0].
+  destruct ((c0 <? 0) || (off0 <? 0) || (Z.of_N (lenN (C11.data st)) <=? c0))%bool eqn:G; [discriminate|].
+  destruct (nth_error (C11.data st) (Z.to_nat c0)) as [l0|] eqn:E; [|discriminate].
+  intros H. inversion H; subst. exists c0, off0. repeat split; try lia.
+  apply nth_error_nth with (d := 0%N) in E. exact E.
+Qed.
+
+Lemma bad_index_gen st i : fields_ok st ->
+  ((i <? 0) || (wrap_s 64 (C11.blen st - 1) <? i))%bool = C11.bad_index st i.
+Proof.
+  intros (Hl & _ & _ & _). unfold C11.bad_index. change (2 ^ 31) with 2147483648 in Hl.
+  rewrite wrap_s_id by (change (2 ^ (64 - 1)) with 9223372036854775808; lia).
+  rewrite Z.gtb_ltb. reflexivity.
+Qed.
+
+Lemma bad_value_gen st v :
+  ((v <? 0) || (Z.of_N (C11.mask st) <? wrap_u 64 v))%bool = C11.bad_value st v.
+Proof.
+  unfold C11.bad_value. rewrite (wrap_u_as_N 64 v) by lia. change (Z.to_N (v mod 2 ^ 64)) with (u64 v).
+  f_equal. destruct (N.ltb_spec (C11.mask st) (u64 v)); [apply Z.ltb_lt|apply Z.ltb_ge]; lia.
+Qed.
+
+Lemma get_word st c0 off0 l : 0 <= off0 -> nth (Z.to_nat c0) (C11.data st) 0%N = l ->
+  Z.land (Z.shiftr (dataf st c0) off0) (Z.of_N (C11.mask st)) = Z.of_N (C11.get_long l (C11.mask st) (Z.to_N off0)).
+Proof.
+  intros Ho Hl. unfold dataf, C11.get_long. rewrite Hl.
+  rewrite <- (Z2N.id off0) at 1 by lia. z_to_n. reflexivity.
+Qed.
+
+Lemma set_word st c0 off0 l v : 0 <= off0 -> nth (Z.to_nat c0) (C11.data st) 0%N = l ->
+  Z.lor (Z.land (dataf st c0) (Z.lxor (wrap_u 64 (Z.shiftl (Z.of_N (C11.mask st)) off0)) 18446744073709551615))
+        (wrap_u 64 (Z.shiftl (Z.land (wrap_u 64 v) (Z.of_N (C11.mask st))) off0))
+  = Z.of_N (C11.set_long l (C11.mask st) (Z.to_N off0) (u64 v)).
+Proof.
+  intros Ho Hl. unfold dataf, C11.set_long, C11.shl64, C11.two64, C11.max64. rewrite Hl.
+  rewrite (wrap_u_as_N 64 v) by lia. change (Z.to_N (v mod 2 ^ 64)) with (u64 v).
+  rewrite <- (Z2N.id off0) at 1 2 by lia. z_lits. z_to_n. reflexivity.
+Qed.
+
+Lemma land_lt_pow2 (a b k : N) : (b < 2 ^ k -> N.land a b < 2 ^ k)%N.
+Proof.
+  intros H. destruct (N.eq_dec (N.land a b) 0) as [E|Hz]; [rewrite E; apply pow2_pos|].
+  apply N.log2_lt_pow2; [lia|].
+  destruct (N.eq_dec b 0) as [->|Hb]; [rewrite N.land_0_r in Hz; contradiction|].
+  pose proof (N.log2_land a b) as L. assert (N.log2 b < k)%N by (apply N.log2_lt_pow2; lia). lia.
+Qed.
+
+Lemma wrap_s_of_N (x : N) : (x < 2 ^ 64)%N -> wrap_s 64 (Z.of_N x) = sx64 x.
+Proof.
+  intros H. rewrite <- sx_wrapu_wrap_s64. f_equal. unfold u64, wrapu.
+  change (Z.of_N 64) with 64. change (2 ^ 64) with (Z.of_N (2 ^ 64)).
+  rewrite <- N2Z.inj_mod, N2Z.id. apply N.mod_small, H.
+Qed.
+
+(* Get: value or panic(indexOutOfBounds), for every index; rt = the model's run-time panic of b.data[c],
+   which wf storages never reach (Proofs/C11.locate_ok) and the translation does not model *)
+Lemma tie_Get st i : fields_ok st -> snd (C11.bs_get st i) <> C11.OPanic C11.pRt ->
+  level_BitStorage_Get i (C11.vpl st) (C11.blen st) (C11.bits st) (dataf st) (Z.of_N (C11.mask st)) =
+  match snd (C11.bs_get st i) with C11.ORet v => GoRet v | _ => GoPanic end.
+Proof.
+  intros F. pose proof F as (Hl & Hv & Hb & Hm).
+  unfold level_BitStorage_Get, C11.bs_get.
+  destruct (C11.vpl st =? 0); [reflexivity|].
+  rewrite (bad_index_gen st i F). destruct (C11.bad_index st i) eqn:Bi; [reflexivity|].
+  destruct (C11.locate st i) as [[[c off] l]|] eqn:L; cbn [snd]; [intros _|intros H; contradiction H; reflexivity].
+  destruct (locate_inv st i c off l L) as (c0 & off0 & Ec & Hc & Ho & -> & -> & Hn).
+  assert (Hi : 0 <= i < 2 ^ 31).
+  { unfold C11.bad_index in Bi. change (2 ^ 31) with 2147483648 in *. lia. }
+  rewrite (tie_calcIndex st i Hi Hv Hb), Ec.
+  rewrite (get_word st c0 off0 l Ho Hn).
+  rewrite wrap_s_of_N by (unfold C11.get_long; apply land_lt_pow2, Hm). reflexivity.
+Qed.
+
+(* Set: the single write b.data[c] = set_long ..., or the two documented panics *)
+Lemma tie_Set st i v : fields_ok st -> snd (C11.bs_set st i v) <> C11.OPanic C11.pRt ->
+  level_BitStorage_Set i v (C11.vpl st) (Z.of_N (C11.mask st)) (C11.blen st) (C11.bits st) (dataf st) =
+  match C11.bs_set st i v, C11.locate st i with
+  | (_, C11.OUnit), Some (c, off, l) =>
+      if C11.vpl st =? 0 then GoRet [] else GoRet [(Z.of_nat c, Z.of_N (C11.set_long l (C11.mask st) off (u64 v)))]
+  | (_, C11.OUnit), None => GoRet []
+  | _, _ => GoPanic
+  end.
+Proof.
+  intros F. pose proof F as (Hl & Hv & Hb & Hm).
+  unfold level_BitStorage_Set, C11.bs_set.
+  destruct (C11.vpl st =? 0) eqn:V0; [intros _; destruct (C11.locate st i) as [[[? ?] ?]|]; reflexivity|].
+  rewrite bad_value_gen. destruct (C11.bad_value st v); [intros _; reflexivity|].
+  rewrite (bad_index_gen st i F). destruct (C11.bad_index st i) eqn:Bi; [intros _; reflexivity|].
+  destruct (C11.locate st i) as [[[c off] l]|] eqn:L; cbn [snd]; [intros _|intros H; contradiction H; reflexivity].
+  destruct (locate_inv st i c off l L) as (c0 & off0 & Ec & Hc & Ho & -> & -> & Hn).
+  assert (Hi : 0 <= i < 2 ^ 31).
+  { unfold C11.bad_index in Bi. change (2 ^ 31) with 2147483648 in *. lia. }
+  rewrite (tie_calcIndex st i Hi Hv Hb), Ec. unfold read_buf. cbn [fold_left app].
+  rewrite (set_word st c0 off0 l v Ho Hn). rewrite Z2Nat.id by lia. reflexivity.
+Qed.
+
+(* Swap: old value and the same single write *)
+Lemma tie_Swap st i v : fields_ok st -> snd (C11.bs_swap st i v) <> C11.OPanic C11.pRt ->
+  level_BitStorage_Swap i v (C11.vpl st) (Z.of_N (C11.mask st)) (C11.blen st) (C11.bits st) (dataf st) =
+  match C11.bs_swap st i v, C11.locate st i with
+  | (_, C11.ORet old), Some (c, off, l) =>
+      if C11.vpl st =? 0 then GoRet (old, []) else GoRet (old, [(Z.of_nat c, Z.of_N (C11.set_long l (C11.mask st) off (u64 v)))])
+  | (_, C11.ORet old), None => GoRet (old, [])
+  | _, _ => GoPanic
+  end.
+Proof.
+  intros F. pose proof F as (Hl & Hv & Hb & Hm).
+  unfold level_BitStorage_Swap, C11.bs_swap.
+  destruct (C11.vpl st =? 0) eqn:V0; [intros _; destruct (C11.locate st i) as [[[? ?] ?]|]; reflexivity|].
+  rewrite bad_value_gen. destruct (C11.bad_value st v); [intros _; reflexivity|].
+  rewrite (bad_index_gen st i F). destruct (C11.bad_index st i) eqn:Bi; [intros _; reflexivity|].
+  destruct (C11.locate st i) as [[[c off] l]|] eqn:L; cbn [snd]; [intros _|intros H; contradiction H; reflexivity].
+  destruct (locate_inv st i c off l L) as (c0 & off0 & Ec & Hc & Ho & -> & -> & Hn).
+  assert (Hi : 0 <= i < 2 ^ 31).
+  { unfold C11.bad_index in Bi. change (2 ^ 31) with 2147483648 in *. lia. }
+  rewrite (tie_calcIndex st i Hi Hv Hb), Ec. unfold read_buf. cbn [fold_left app].
+  rewrite (get_word st c0 off0 l Ho Hn), (set_word st c0 off0 l v Ho Hn). rewrite Z2Nat.id by lia.
+  rewrite wrap_s_of_N by (unfold C11.get_long; apply land_lt_pow2, Hm). reflexivity.
+Qed.
